@@ -76,7 +76,7 @@ CAUGHT_NAMES = ["AttributeError", "NameError", "KeyError", "IndexError",
                 "UnicodeDecodeError"]
 UNCAUGHT_NAMES = ["ZeroDivisionError", "RuntimeError", "OSError",
                   "AssertionError", "MemoryError", "StopIteration", "E1",
-                  "E2"]
+                  "E2", "RecursionError"]
 NONEXC_NAMES = ["KeyboardInterrupt", "SystemExit", "GeneratorExit", "Abort"]
 
 
